@@ -5,7 +5,7 @@ from ..absint import INF, analyse
 from ..bytecount import ByteCount
 from ..cfg import Renderer, walk, show, flat_guards, branches, guards_of
 from ..facts import callee_names, short
-from ..util import view, root_name, expr_calls, expr_fields, expr_vars, loops, deep_calls, var_def_expr
+from ..util import view, crate_fns, root_name, expr_calls, expr_fields, expr_vars, loops, deep_calls, var_def_expr
 
 EXPLANATION = (
     "Static rules over packet/src/bgp.rs and the NLRI encoders. R04.1 every loop that appends NLRI entries to an UPDATE "
@@ -53,6 +53,10 @@ def run(prog, rep, tier):
 
 
 # ---------------------------------------------------------------------------------------------- tables
+    r8 = rep.rule("R04.8", "encoders consult the negotiated ADD-PATH *send* state, parsers the *receive* state")
+    check_addpath_direction(prog, r8)
+
+
 def decode_table(prog):
     """family value -> NLRI payload type (path prefix of `T::decode`) from Nlri::decode."""
     fv = view(prog, prog.one(r"rustybgp_packet::bgp::Nlri::decode"))
@@ -66,6 +70,7 @@ def decode_table(prog):
                 for x in labels:
                     out[int(x)] = ty
     return out
+
 
 
 def _encoder_of(prog, ty):
@@ -756,3 +761,51 @@ def check_tables(prog, r, table):
         else:
             r.fail(fv.name, "no-decoder-arm:" + short(ty), "Nlri::encode writes %s but Nlri::decode never produces it" % ty, fv.loc())
     r.floor("NLRI payload types", len(dec), 13)
+
+
+# ---------------------------------------------------------------------------------------------- R04.8
+def check_addpath_direction(prog, r):
+    """FamilyState has one flag per direction (RFC 7911: each side announces send / receive separately, so with an asymmetric
+    negotiation they differ).  Whether a path identifier is written is decided by addpath_tx, whether one is expected when
+    parsing by addpath_rx; a codec function that reads the other direction's flag produces frames the peer's mirror-image codec
+    cannot parse.  Sibling agreement over every PeerCodec function (and closures) that reads either flag."""
+    n = 0
+    for k in crate_fns(prog, "rustybgp_packet"):
+        nm = prog.ix[k]["name"]
+        root = root_name(prog, k)
+        if "::tests::" in nm or not root.startswith("rustybgp_packet::bgp::PeerCodec::"):
+            continue
+        meth = root.split("::")[-1]
+        want = "addpath_tx" if re.search(r"encode|append", meth) else ("addpath_rx" if re.search(r"parse|decode", meth) else None)
+        if want is None:
+            continue
+        fv = view(prog, k)
+        reads = set()
+        for b in fv.live:
+            for st in fv.blocks[b]["s"]:
+                rv = st.get("rv")
+                if not rv:
+                    continue
+                def _fields(x, out):
+                    if isinstance(x, dict):
+                        if x.get("n") in ("addpath_tx", "addpath_rx") and "f" in x:
+                            out.add(x["n"])
+                        for v in x.values():
+                            _fields(v, out)
+                    elif isinstance(x, list):
+                        for v in x:
+                            _fields(v, out)
+                if rv["r"] == "agg":
+                    continue          # building a FamilyState (negotiate / set_family) is not a read
+                _fields(rv, reads)
+        if not reads:
+            continue
+        n += 1
+        r.analysed(root)
+        other = reads - {want}
+        if other:
+            r.fail(root, "addpath-direction:" + meth, "%s decides on the path identifier from %s; %s must use %s (with send-only / receive-only ADD-PATH the two flags differ and the "
+                   "peer cannot parse the frame)" % (meth, "/".join(sorted(other)), "an encoder" if want.endswith("tx") else "a parser", want), fv.loc())
+        else:
+            r.ok("%s reads %s" % (short(nm), want))
+    r.floor("PeerCodec functions / closures reading an ADD-PATH direction flag", n, 5)
